@@ -122,7 +122,7 @@ def ref_job(job):
                     return ("fail",)
                 except pp.ParseBaseException as ex:
                     return ("fatal", type(ex).__name__)
-            got = common.with_alarm(2.0, real)
+            got = common.with_alarm_retry(2.0, real)
         except common.CaseTimeout:
             got = ("hang",)
         except RecursionError:
